@@ -2,6 +2,23 @@
 use super::Verdict;
 use crate::{analysis::*, history::*, model::*};
 
+/// the part of the check that is meaningful on a run cut by the step budget
+pub fn unbounded_never_waits(v: &View, vd: &mut Verdict) {
+    for a in 0..v.actors.len() {
+        if v.actors[a].spawned.is_none() || v.rt[a].mailbox != Mailbox::Unbounded {
+            continue;
+        }
+        for s in v.client_ops().filter(|o| o.actor == Some(a) && o.what == OpWhat::Send) {
+            if (s.polls > 0 || s.was_pending) && s.begin < v.alive_until(a) {
+                vd.fail(
+                    format!("C12/unbounded_send_waited/via={:?}", s.via),
+                    format!("actor {a} (unbounded): send of message {} via {:?} returned Pending", s.msg.unwrap(), s.via),
+                );
+            }
+        }
+    }
+}
+
 pub fn check(v: &View, vd: &mut Verdict) {
     let mut blocked_resolved = false;
     for a in 0..v.actors.len() {
@@ -40,7 +57,7 @@ pub fn check(v: &View, vd: &mut Verdict) {
             }
             Mailbox::Unbounded => {
                 for s in &sends {
-                    if s.polls > 0 && s.begin < v.alive_until(a) {
+                    if (s.polls > 0 || s.was_pending) && s.begin < v.alive_until(a) {
                         vd.fail(
                             format!("C12/unbounded_send_waited/via={:?}", s.via),
                             format!("actor {a} (unbounded): send of message {} via {:?} was pending for {} polls", s.msg.unwrap(), s.via, s.polls),
